@@ -8,7 +8,7 @@
    statements about joint_step runs. *)
 From Coq Require Import ZArith List Bool Arith Lia.
 From V Require Import Model.DkgVss Model.DkgQual Model.DkgJoint Model.DkgNet Spec.DkgApiSpec Spec.DkgQualFacts
-  Proofs.DkgTactics Proofs.DkgC10Proofs Proofs.DkgQualRefine Proofs.DkgAgree Proofs.DkgQualFair.
+  Proofs.DkgTactics Proofs.DkgC10Proofs Proofs.DkgQualRefine Proofs.DkgAgree Proofs.DkgQualEvents Proofs.DkgQualFair.
 Import ListNotations.
 Open Scope Z_scope.
 
@@ -106,7 +106,7 @@ Proof.
     destruct (inst_call_ok cf Hmy k q c A' (Hi k q Hk) HA') as (q' & ev & E & _).
     rewrite (fcall_qual c k true q Hc) in E. apply qpack_inv in E. cbn [Nat.add]. eauto. }
   exists ev. rewrite E. f_equal. f_equal. f_equal.
-  clear E. generalize 0%nat. induction (j_insts s) as [|q l IH]; intro i0; cbn [mapi]; [reflexivity|].
+  clear E L Hi HA. generalize 0%nat. induction (j_insts s) as [|q l IH]; intro i0; cbn [mapi]; [reflexivity|].
   rewrite (qcall_fcall c i0 q Hc), IH. reflexivity.
 Qed.
 
@@ -120,4 +120,942 @@ Proof.
   rewrite Es. reflexivity.
 Qed.
 
+Lemma mapi_id {A} (g : nat -> A -> A) : forall l i0, (forall i q, In q l -> g i q = q) -> mapi g i0 l = l.
+Proof.
+  induction l as [|x l IH]; intros i0 H; cbn [mapi]; [reflexivity|].
+  rewrite (H i0 x (or_introl eq_refl)), IH; [reflexivity|]. intros; apply H; right; assumption.
+Qed.
+
+Lemma nth_error_set_nth {A} : forall (l : list A) i x k,
+  nth_error (set_nth l i x) k =
+  if Nat.eqb k i then match nth_error l k with Some _ => Some x | None => None end else nth_error l k.
+Proof.
+  induction l as [|y l IH]; intros i x k; [destruct i, k; cbn; try reflexivity; destruct (Nat.eqb k i); reflexivity|].
+  destruct i, k; cbn [set_nth nth_error Nat.eqb]; try reflexivity. apply IH.
+Qed.
+
+Lemma aut_input_keeps_running p dl to c :
+  is_input c = true -> a_run (fst (aut_step p cf dl (mkA true to) c)) = true.
+Proof.
+  destruct c; cbn; intro H; try discriminate H; repeat brk_goal; reflexivity.
+Qed.
+
+(* one call of Joint-Feldman = the same call on each of the n single-dealer models *)
+Lemma joint_step_link s c :
+  jinv cf s -> j_jrun s = true -> is_input c = true ->
+  let '(s', res, _) := joint_step cf s c in
+  res <> RPanic /\ jinv cf s' /\ j_jrun s' = true /\
+  j_insts s' = mapi (fun i q => qcall cf i q c) 0 (j_insts s).
+Proof.
+  intros Hinv Hj Hc.
+  pose proof (joint_step_sim cf Hmy s c Hinv) as HS.
+  pose proof (aut_input_keeps_running PJoint true (a_to (jabs s)) c Hc) as HR.
+  pose proof (insts_nonempty cf Hmy s Hinv) as Hne.
+  pose proof Hinv as (L & Hi & (st & ct & Hs) & J4). rewrite Hj in Hi. specialize (J4 Hj).
+  assert (Hjabs : jabs s = mkA true (a_to (jabs s))) by (unfold jabs; cbn; rewrite Hj; reflexivity).
+  rewrite Hjabs in HS.
+  assert (Hin : forall i q, nth_error (j_insts s) i = Some q -> q_st q = st /\ q_ct q = ct /\ (ct = true -> st = true)).
+  { intros i q E. destruct (Hs q (nth_error_In _ _ E)) as [E1 E2].
+    destruct (Hi i q E) as [(_ & _ & _ & Q3) _]. rewrite E1, E2 in Q3. auto. }
+  assert (Hmain : j_insts (fst (fst (joint_step cf s c))) = mapi (fun i q => qcall cf i q c) 0 (j_insts s)).
+  { destruct s as [run jrun insts]. cbn [j_jrun j_run j_insts] in *. subst run jrun.
+    (* every instance refuses, with the same answer and untouched *)
+    assert (Hrefuse : forall res0, is_refusal res0 ->
+              (forall i q, nth_error insts i = Some q -> fcall c i true q = (true, q, res0, [])) ->
+              mapi (fun i q => qcall cf i q c) 0 insts = insts /\
+              jloop (fcall c) 0 true insts = (true, insts, res0, [])).
+    { intros res0 Hr0 Hf. split.
+      - apply list_eq_nth. intro k. destruct (nth_error insts k) as [q|] eqn:Ek.
+        + rewrite (mapi_nth _ insts 0 k q Ek). f_equal. cbn [Nat.add].
+          rewrite (qcall_fcall c k q Hc), (Hf k q Ek). reflexivity.
+        + apply mapi_nth_none. exact Ek.
+      - destruct insts as [|q0 qs]; [congruence|].
+        apply jloop_refused; [apply (Hf 0%nat q0 eq_refl)|]. destruct Hr0; subst; discriminate. }
+    (* every instance accepts *)
+    assert (Haccept : (forall i q, nth_error insts i = Some q ->
+                exists A', aut_step PQual cf (Nat.eqb my i) (mkA true (b2n (q_st q) + b2n (q_ct q))%nat) c = (A', KOk)) ->
+              exists ev, jloop (fcall c) 0 true insts = (true, mapi (fun i q => qcall cf i q c) 0 insts, ROk, ev)).
+    { intro HA. apply (loop_all_accept (mkJ true true insts) c Hinv eq_refl Hc HA). }
+    destruct c as [sd| | | |o m|o m|j]; try discriminate Hc; cbn [joint_step].
+    - (* NextTimeout *)
+      unfold joint_next_timeout. cbn [j_jrun j_run j_insts negb].
+      change (jloop (fun i run q => q_next_timeout cf i run q)) with (jloop (fcall CNextTimeout)).
+      destruct ct.
+      + destruct (Hrefuse RStateErr) as [E1 E2]; [left; reflexivity| |rewrite E2; cbn; symmetry; exact E1].
+        intros i q E. destruct (Hin i q E) as (_ & Ect & _). cbn. unfold q_next_timeout. cbn. rewrite Ect. reflexivity.
+      + destruct Haccept as [ev E]; [|rewrite E; reflexivity].
+        intros i q E. destruct (Hin i q E) as (Est & Ect & _). rewrite Est, Ect. cbn. destruct st; eexists; reflexivity.
+    - (* HandleBroadcastMsg *)
+      unfold joint_broadcast. cbn [j_jrun j_run j_insts negb].
+      change (jloop (fun i run q => q_broadcast cf i run q o m)) with (jloop (fcall (CBroadcast o m))).
+      destruct (in_range cf o) eqn:Eo.
+      + destruct Haccept as [ev E]; [|rewrite E; reflexivity].
+        intros i q E. cbn. rewrite Eo. cbn. eauto.
+      + destruct (Hrefuse RInvalidInput) as [E1 E2]; [right; reflexivity| |rewrite E2; cbn; symmetry; exact E1].
+        intros i q E. cbn. unfold q_broadcast. cbn. rewrite Eo. reflexivity.
+    - (* HandlePrivateMsg *)
+      unfold joint_private. cbn [j_jrun j_run j_insts negb].
+      change (jloop (fun i run q => q_private cf i run q o m)) with (jloop (fcall (CPrivate o m))).
+      destruct (in_range cf o) eqn:Eo.
+      + destruct Haccept as [ev E]; [|rewrite E; reflexivity].
+        intros i q E. cbn. rewrite Eo. cbn. eauto.
+      + destruct (Hrefuse RInvalidInput) as [E1 E2]; [right; reflexivity| |rewrite E2; cbn; symmetry; exact E1].
+        intros i q E. cbn. unfold q_private. cbn. rewrite Eo. reflexivity.
+    - (* ForceDisqualify *)
+      unfold joint_force. cbn [j_jrun j_run j_insts negb].
+      destruct (in_range cf j) eqn:Ej; cbn [negb].
+      + pose proof (in_range_lt cf Hmy j Ej) as Hlt.
+        destruct (nth_error insts (Z.to_nat j)) as [q|] eqn:Eq; [|apply nth_error_None in Eq; lia].
+        unfold q_force. cbn [negb]. rewrite Ej, Nat.eqb_refl. cbn.
+        apply list_eq_nth. intro k. rewrite nth_error_set_nth.
+        destruct (nth_error insts k) as [q'|] eqn:Ek.
+        * rewrite (mapi_nth _ insts 0 k q' Ek). cbn [Nat.add]. unfold qcall. cbn [qual_step qs_run qs_q].
+          unfold q_force. cbn [negb]. rewrite Ej. cbn [negb].
+          destruct (Nat.eqb_spec k (Z.to_nat j)) as [->|Hk].
+          -- rewrite Nat.eqb_refl. cbn. rewrite Eq in Ek. inversion Ek. reflexivity.
+          -- rewrite (proj2 (Nat.eqb_neq (Z.to_nat j) k)) by (intro; apply Hk; symmetry; assumption). reflexivity.
+        * rewrite (mapi_nth_none _ insts 0 k Ek). destruct (Nat.eqb k (Z.to_nat j)); reflexivity.
+      + cbn. symmetry. apply mapi_id. intros i q _. unfold qcall. cbn. unfold q_force. cbn. rewrite Ej. reflexivity. }
+  destruct (joint_step cf s c) as [[s' res] ev]. cbn [fst] in Hmain.
+  destruct (aut_step PJoint cf true (mkA true (a_to (jabs s))) c) as [A' k] eqn:EA. cbn [fst] in HR.
+  destruct HS as (I' & Ab & Cl). split; [intro E; subst res; discriminate Cl|].
+  split; [exact I'|]. split; [|exact Hmain].
+  unfold jabs in Ab. rewrite <- Ab in HR. exact HR.
+Qed.
+
+Lemma mapi_mapi {A B C} (g : nat -> A -> B) (h : nat -> B -> C) : forall l i,
+  mapi h i (mapi g i l) = mapi (fun k x => h k (g k x)) i l.
+Proof. induction l as [|x l IH]; intro i; cbn; [reflexivity|]. rewrite IH. reflexivity. Qed.
+
+Lemma mapi_ext {A B} (g h : nat -> A -> B) : forall l i, (forall k x, g k x = h k x) -> mapi g i l = mapi h i l.
+Proof. induction l as [|x l IH]; intros i H; cbn; [reflexivity|]. rewrite H, IH; auto. Qed.
+
+(* THE LINK: any list of input calls *)
+Theorem joint_run_link : forall L s,
+  jinv cf s -> j_jrun s = true -> forallb is_input L = true ->
+  let s' := final (joint_step cf) s L in
+  jinv cf s' /\ j_jrun s' = true /\ j_run s' = true /\
+  j_insts s' = mapi (fun i q => qrun cf i q L) 0 (j_insts s) /\
+  length (run (joint_step cf) s L) = length L /\
+  (forall o, In o (run (joint_step cf) s L) -> fst o <> RPanic).
+Proof.
+  induction L as [|c L IH]; intros s Hinv Hj HL.
+  - cbn. split; [exact Hinv|]. split; [exact Hj|]. split; [destruct Hinv as (_ & _ & _ & J4); auto|].
+    split; [symmetry; apply mapi_id; reflexivity|]. split; [reflexivity|intros o []].
+  - cbn [forallb] in HL. apply andb_prop in HL as [Hc HL].
+    pose proof (joint_step_link s c Hinv Hj Hc) as H1.
+    cbn [final run]. destruct (joint_step cf s c) as [[s1 res] ev]. destruct H1 as (Hnp & I1 & J1 & E1).
+    destruct (IH s1 I1 J1 HL) as (I2 & J2 & R2 & E2 & Len & Np).
+    assert (Hfin : match res with RPanic => s1 | _ => final (joint_step cf) s1 L end = final (joint_step cf) s1 L)
+      by (destruct res; try reflexivity; congruence).
+    assert (Hrun : match res with RPanic => [] | _ => run (joint_step cf) s1 L end = run (joint_step cf) s1 L)
+      by (destruct res; try reflexivity; congruence).
+    rewrite Hfin, Hrun. split; [exact I2|]. split; [exact J2|]. split; [exact R2|].
+    split; [|split].
+    + rewrite E2, E1, mapi_mapi. apply mapi_ext. reflexivity.
+    + cbn. rewrite Len. reflexivity.
+    + intros o [<-|Ho]; [exact Hnp|apply Np; exact Ho].
+Qed.
+
+(* ---------------------------------------------------------------------- *)
+(* Start: the own instance deals the polynomial of the seed                 *)
+(* ---------------------------------------------------------------------- *)
+Definition share_of (a : list Z) (j : nat) : Z := peval a (Z.of_nat j + 1).
+
+(* what generateShares sends: the shares of the other participants in index order, then the
+   verification vector *)
+Definition start_events (a : list Z) : list event :=
+  map (fun j => EvSend j (MShare (SVal (share_of a j)))) (filter (fun j => negb (Nat.eqb j my)) (seq 0 n))
+  ++ [EvBcast (MVec (VOk a))].
+
+Definition started_v (a : list Z) : vinst :=
+  mkV (Some a) (VAFull a) true (share_of a my) true (Some (pubkeys cf a)) true.
+
+Definition q_own (a : list Z) : qinst := mkQ (started_v a) (fun _ => None) false false false.
+
+(* the state of instance i right after Start *)
+Definition q0 (a : list Z) (i : nat) : qinst := if Nat.eqb i my then q_own a else q_init.
+
+Lemma gen_loop_ok a : share_of a my <> 0 -> forall js,
+  gen_loop cf a js =
+  (map (fun j => EvSend j (MShare (SVal (share_of a j)))) (filter (fun j => negb (Nat.eqb j my)) js),
+   map (share_of a) js, true).
+Proof.
+  intros Hnz. induction js as [|j js IH]; [reflexivity|]. cbn [gen_loop map filter]. rewrite IH.
+  fold my. destruct (Nat.eqb_spec j my) as [->|Hj]; cbn [negb].
+  - fold (share_of a my). destruct (share_of a my =? 0) eqn:E; [apply Z.eqb_eq in E; contradiction|reflexivity].
+  - reflexivity.
+Qed.
+
+Lemma gen_shares_ok a0 :
+  let a := fixpoly (c_t cf) a0 in
+  share_of a my <> 0 ->
+  gen_shares cf (SeedOk a0) v_init = (started_v a, ROk, start_events a).
+Proof.
+  intros a Hnz. unfold gen_shares. fold a. rewrite (gen_loop_ok a Hnz).
+  rewrite map_length, seq_length, Nat.sub_diag. cbn [repeat]. rewrite app_nil_r. reflexivity.
+Qed.
+
+Lemma seed_ok_share a0 : seed_fails cf (SeedOk a0) = false -> share_of (fixpoly (c_t cf) a0) my <> 0.
+Proof. unfold seed_fails, share_of. intro H. apply Z.eqb_neq. exact H. Qed.
+
+Lemma q_start_own a0 : seed_fails cf (SeedOk a0) = false ->
+  q_start cf my false q_init (SeedOk a0) = (true, q_own (fixpoly (c_t cf) a0), ROk, start_events (fixpoly (c_t cf) a0)).
+Proof.
+  intro H. unfold q_start, vss_start. fold my. rewrite Nat.eqb_refl. cbn [q_v q_init].
+  rewrite (gen_shares_ok a0 (seed_ok_share a0 H)). reflexivity.
+Qed.
+
+Lemma q_start_other i sd : i <> my -> q_start cf i false q_init sd = (true, q_init, ROk, []).
+Proof.
+  intro H. unfold q_start, vss_start. fold my. rewrite (proj2 (Nat.eqb_neq i my) H). reflexivity.
+Qed.
+
+Definition started (a : list Z) : jstate := mkJ true true (mapi (fun i _ => q0 a i) 0 (repeat q_init n)).
+
+Lemma started_nth a i : (i < n)%nat -> nth_error (j_insts (started a)) i = Some (q0 a i).
+Proof.
+  intro H. cbn [started j_insts].
+  assert (E : nth_error (repeat q_init n) i = Some q_init).
+  { destruct (nth_error (repeat q_init n) i) eqn:E.
+    - apply nth_error_In in E. apply repeat_spec in E. subst. reflexivity.
+    - apply nth_error_None in E. rewrite repeat_length in E. lia. }
+  rewrite (mapi_nth _ _ 0 i q_init E). reflexivity.
+Qed.
+
+(* Start on a fresh Joint-Feldman instance with a good seed *)
+Theorem joint_start_ok a0 :
+  seed_fails cf (SeedOk a0) = false ->
+  let a := fixpoly (c_t cf) a0 in
+  joint_start cf (joint_init cf) (SeedOk a0) = (started a, ROk, start_events a).
+Proof.
+  intros H a. unfold joint_start, joint_init. cbn [j_jrun j_insts]. fold n my.
+  assert (E : nth_error (repeat q_init n) my = Some q_init).
+  { destruct (nth_error (repeat q_init n) my) eqn:E.
+    - apply nth_error_In in E. apply repeat_spec in E. subst. reflexivity.
+    - apply nth_error_None in E. rewrite repeat_length in E. unfold n, my in *. lia. }
+  rewrite E, (q_start_own a0 H). fold a. unfold started. f_equal. f_equal. f_equal.
+  apply list_eq_nth. intro k. rewrite nth_error_set_nth.
+  destruct (nth_error (repeat q_init n) k) as [q|] eqn:Ek.
+  - rewrite (mapi_nth _ _ 0 k q Ek). cbn [Nat.add]. unfold q0.
+    destruct (Nat.eqb k my); [reflexivity|]. apply nth_error_In in Ek. apply repeat_spec in Ek. subst. reflexivity.
+  - rewrite (mapi_nth_none _ _ 0 k Ek). destruct (Nat.eqb k my); reflexivity.
+Qed.
+
+Lemma started_inv a0 : seed_fails cf (SeedOk a0) = false -> jinv cf (started (fixpoly (c_t cf) a0)).
+Proof.
+  intro H. pose proof (joint_step_sim cf Hmy (joint_init cf) (CStart (SeedOk a0)) (joint_init_inv cf)) as HS.
+  cbn [joint_step] in HS. rewrite (joint_start_ok a0 H) in HS.
+  destruct (aut_step PJoint cf true (jabs (joint_init cf)) (CStart (SeedOk a0))). apply HS.
+Qed.
+
+(* instance i of the Joint state after Start and any input calls L is the single-dealer run *)
+Theorem joint_instances a0 L :
+  seed_fails cf (SeedOk a0) = false -> forallb is_input L = true ->
+  let a := fixpoly (c_t cf) a0 in
+  let s := final (joint_step cf) (joint_init cf) (CStart (SeedOk a0) :: L) in
+  j_jrun s = true /\ j_run s = true /\ length (j_insts s) = n /\
+  (forall i, (i < n)%nat -> nth_error (j_insts s) i = Some (qrun cf i (q0 a i) L)) /\
+  length (run (joint_step cf) (joint_init cf) (CStart (SeedOk a0) :: L)) = S (length L) /\
+  (forall o, In o (run (joint_step cf) (joint_init cf) (CStart (SeedOk a0) :: L)) -> fst o <> RPanic).
+Proof.
+  intros H HL a s. unfold s. cbn [final run joint_step]. rewrite (joint_start_ok a0 H). fold a.
+  destruct (joint_run_link L (started a) (started_inv a0 H) eq_refl HL) as (I & J & R & E & Len & Np).
+  split; [exact J|]. split; [exact R|]. split; [destruct I as (Ln & _); exact Ln|].
+  split; [|split].
+  - intros i Hi. rewrite E. rewrite (mapi_nth _ _ 0 i _ (started_nth a i Hi)). reflexivity.
+  - cbn. rewrite Len. reflexivity.
+  - intros o [<-|Ho]; [discriminate|apply Np; exact Ho].
+Qed.
+
+(* the same call list on the single-dealer model with dealer i *)
+Lemma qual_final_qrun i : forall L q,
+  qinv cf i (mkQS true q) -> forallb is_input L = true ->
+  final (qual_step cf i) (mkQS true q) L = mkQS true (qrun cf i q L).
+Proof.
+  induction L as [|c L IH]; intros q Hinv HL; [reflexivity|].
+  cbn [forallb] in HL. apply andb_prop in HL as [Hc HL].
+  pose proof (qual_step_sim cf i Hmy (mkQS true q) c Hinv) as HS.
+  pose proof (aut_input_keeps_running PQual (Nat.eqb (c_my cf) i) (a_to (qabs (mkQS true q))) c Hc) as HR.
+  cbn [final qrun fold_left]. unfold qcall at 2.
+  destruct (qual_step cf i (mkQS true q) c) as [[s1 res] ev]. cbn [fst].
+  change (qabs (mkQS true q)) with (mkA true (a_to (qabs (mkQS true q)))) in HS.
+  destruct (aut_step PQual cf (Nat.eqb (c_my cf) i) (mkA true (a_to (qabs (mkQS true q)))) c) as [A' k].
+  cbn [fst] in HR. destruct HS as (I1 & Ab & Cl).
+  destruct s1 as [r1 q1]. unfold qabs in Ab. cbn [qs_run qs_q] in Ab. rewrite <- Ab in HR. cbn in HR. subst r1.
+  cbn [qs_q]. fold (qrun cf i q1 L).
+  destruct res; try discriminate Cl; apply IH; assumption.
+Qed.
+
+Theorem qual_model_run i a0 L :
+  (i < n)%nat -> seed_fails cf (SeedOk a0) = false -> forallb is_input L = true ->
+  final (qual_step cf i) qual_init (CStart (SeedOk a0) :: L)
+  = mkQS true (qrun cf i (q0 (fixpoly (c_t cf) a0) i) L).
+Proof.
+  intros Hi H HL. cbn [final qual_step qual_init qs_run qs_q].
+  assert (E : q_start cf i false q_init (SeedOk a0) = (true, q0 (fixpoly (c_t cf) a0) i, ROk,
+                 if Nat.eqb i my then start_events (fixpoly (c_t cf) a0) else [])).
+  { unfold q0. destruct (Nat.eqb_spec i my) as [->|Hne]; [apply q_start_own; exact H|apply q_start_other; exact Hne]. }
+  pose proof (qual_step_sim cf i Hmy qual_init (CStart (SeedOk a0)) (qual_init_inv cf i)) as HS.
+  cbn [qual_step qual_init qs_run qs_q] in HS. rewrite E in *. cbn [qpack] in *.
+  destruct (aut_step PQual cf (Nat.eqb (c_my cf) i) (qabs qual_init) (CStart (SeedOk a0))).
+  destruct HS as (I1 & _). apply qual_final_qrun; assumption.
+Qed.
+
+(* ---------------------------------------------------------------------- *)
+(* End: failure rule and sums over the per-dealer states                    *)
+(* ---------------------------------------------------------------------- *)
+(* the first step of End on one instance: a complaint never answered disqualifies the dealer *)
+Definition endq (q : qinst) : qinst :=
+  if negb (q_disq q) && unanswered cf (q_compl q) then qset_disq q true else q.
+
+Lemma jend_loop_map : forall qs i0, same_to qs true true ->
+  exists ev, jend_loop cf i0 qs = (map endq qs, ev, Some (length (filter q_disq (map endq qs)))).
+Proof.
+  induction qs as [|q qs IH]; intros i0 Hs; cbn [jend_loop map]; [eauto|].
+  destruct (Hs q (or_introl eq_refl)) as [Est Ect]. rewrite Est, Ect. cbn [negb orb].
+  destruct (IH (S i0)) as [ev E]; [intros q0' H0; apply Hs; right; exact H0|]. rewrite E.
+  destruct (q_disq q) eqn:Ed; cbn [negb].
+  - assert (Eq : endq q = q) by (unfold endq; rewrite Ed; reflexivity). rewrite Eq.
+    cbn [filter]. rewrite Ed. cbn [length]. eexists. reflexivity.
+  - destruct (unanswered cf (q_compl q)) eqn:Eu.
+    + assert (Eq : endq q = qset_disq q true) by (unfold endq; rewrite Ed, Eu; reflexivity). rewrite Eq.
+      cbn [filter qset_disq q_disq length]. eexists. reflexivity.
+    + assert (Eq : endq q = q) by (unfold endq; rewrite Ed, Eu; reflexivity). rewrite Eq.
+      cbn [filter]. rewrite Ed. eexists. reflexivity.
+Qed.
+
+(* End of Joint-Feldman on a running state whose instances all saw both timeouts *)
+Theorem joint_end_link s :
+  j_jrun s = true -> same_to (j_insts s) true true ->
+  snd (fst (joint_end cf s)) = joint_outcome cf (map endq (j_insts s)) /\
+  j_jrun (fst (fst (joint_end cf s))) = false.
+Proof.
+  intros Hj Hs. destruct (jend_loop_map (j_insts s) 0%nat Hs) as [ev E].
+  split; [apply (joint_end_outcome cf s _ ev Hj E)|].
+  unfold joint_end. rewrite Hj. cbn [negb]. rewrite E.
+  repeat brk_goal; reflexivity.
+Qed.
+
+(* ---------------------------------------------------------------------- *)
+(* input calls as the [item]s of the fact-set specification                 *)
+(* ---------------------------------------------------------------------- *)
+(* an index outside [0, n) is refused; it is represented by the out-of-range index n *)
+Definition idx_of (o : Z) : nat := if in_range cf o then Z.to_nat o else n.
+
+Definition item_of (c : call) : item :=
+  match c with
+  | CBroadcast o m => IB (idx_of o) m
+  | CPrivate o m => IP (idx_of o) m
+  | CForce j => IForce (idx_of j)
+  | _ => ITimeout
+  end.
+
+Definition items_of (L : list call) : list item := map item_of L.
+
+Lemma in_range_n : in_range cf (Z.of_nat n) = false.
+Proof. unfold in_range. fold n. apply andb_false_iff. right. apply Z.ltb_ge. lia. Qed.
+
+Lemma in_range_idx o : in_range cf (Z.of_nat (idx_of o)) = in_range cf o /\
+  (in_range cf o = true -> Z.of_nat (idx_of o) = o).
+Proof.
+  unfold idx_of. destruct (in_range cf o) eqn:E.
+  - assert (0 <= o) by (unfold in_range in E; apply andb_prop in E as [E _]; apply Z.leb_le in E; exact E).
+    rewrite Z2Nat.id by assumption. auto.
+  - split; [apply in_range_n|discriminate].
+Qed.
+
+Lemma qcall_item i q c : is_input c = true -> qcall cf i q c = fst (istep cf i q (item_of c)).
+Proof.
+  intro Hc. unfold istep, qcall.
+  destruct c as [sd| | | |o m|o m|j]; try discriminate Hc; cbn [item_of call_of].
+  - destruct (qual_step cf i (mkQS true q) CNextTimeout) as [[s' res] ev]. reflexivity.
+  - destruct (in_range_idx o) as [E1 E2]. destruct (in_range cf o) eqn:Eo.
+    + rewrite (E2 eq_refl). destruct (qual_step cf i (mkQS true q) (CBroadcast o m)) as [[s' res] ev]. reflexivity.
+    + cbn [qual_step qs_run qs_q]. unfold q_broadcast. cbn [negb]. rewrite E1, Eo. reflexivity.
+  - destruct (in_range_idx o) as [E1 E2]. destruct (in_range cf o) eqn:Eo.
+    + rewrite (E2 eq_refl). destruct (qual_step cf i (mkQS true q) (CPrivate o m)) as [[s' res] ev]. reflexivity.
+    + cbn [qual_step qs_run qs_q]. unfold q_private. cbn [negb]. rewrite E1, Eo. reflexivity.
+  - destruct (in_range_idx j) as [E1 E2]. destruct (in_range cf j) eqn:Eo.
+    + rewrite (E2 eq_refl). destruct (qual_step cf i (mkQS true q) (CForce j)) as [[s' res] ev]. reflexivity.
+    + cbn [qual_step qs_run qs_q]. unfold q_force. cbn [negb]. rewrite E1, Eo. reflexivity.
+Qed.
+
+Lemma qrun_irun i : forall L q, forallb is_input L = true -> qrun cf i q L = irun cf i q (items_of L).
+Proof.
+  induction L as [|c L IH]; intros q HL; [reflexivity|].
+  cbn [forallb] in HL. apply andb_prop in HL as [Hc HL].
+  cbn [qrun fold_left items_of map irun]. rewrite (qcall_item i q c Hc). apply IH. exact HL.
+Qed.
+
+(* ---------------------------------------------------------------------- *)
+(* the instances of the OTHER dealers: the refinement gives their data       *)
+(* ---------------------------------------------------------------------- *)
+Local Transparent fixpoly.
+Lemma fixpoly_length t0 l : length (fixpoly t0 l) = S t0.
+Proof.
+  unfold fixpoly. rewrite firstn_length, app_length, map_length, repeat_length. lia.
+Qed.
+Local Opaque fixpoly.
+
+(* the verdict and the vector participant [my] holds for dealer d after the inputs *)
+Definition verdict_of (d : nat) (items : list item) : option (list Z) :=
+  if PhiEnd cf d (annot items) then None else vecOk cf d (annot items).
+
+Theorem nondealer_inst_rel d items :
+  (d < n)%nat -> my <> d -> ph items = 2%nat ->
+  inst_rel cf (endq (irun cf d q_init items)) (verdict_of d items).
+Proof.
+  intros Hd Hmd Hph. unfold verdict_of.
+  pose proof (qual_refines_factset cf d Hmy Hd Hmd items) as [R1 R2].
+  set (A := annot items) in *. set (q := irun cf d q_init items) in *.
+  assert (Hn : nph A = 2%nat) by (unfold A; rewrite nph_annot; exact Hph).
+  unfold PhiEnd, endq. destruct (q_disq q) eqn:Hq.
+  - rewrite (R2 eq_refl). cbn. exact Hq.
+  - destruct (R1 eq_refl) as [S P]. rewrite P. cbn [orb negb andb].
+    rewrite (unanswered_abs cf d A q S).
+    destruct (unansweredF cf d A) eqn:EU; [reflexivity|].
+    destruct (Phi_false_inv cf d A P) as (_ & _ & _ & P4 & P5 & _).
+    unfold noVec in P5. rewrite Hn in P5. cbn in P5.
+    destruct (vecF d A) as [vb|] eqn:Ev; [|discriminate P5].
+    unfold badVec in P4. rewrite Ev in P4. destruct vb as [|k|l]; try discriminate P4.
+    assert (Evo : vecOk cf d A = Some (fixpoly (c_t cf) l)) by (unfold vecOk; rewrite Ev; reflexivity).
+    rewrite Evo. destruct (sa_vok _ _ _ _ S _ Evo) as [EvA Ey].
+    split; [exact Hq|]. split; [apply fixpoly_length|]. split; [apply fixpoly_cons|].
+    split; [exact EvA|]. split; [exact Ey|].
+    destruct (sa_x _ _ _ _ S _ Evo) as [Hx|[Hc Ha]]; [right; rewrite Hn; lia|exact Hx|].
+    exfalso. unfold unansweredF in EU.
+    pose proof (existsb_false_in _ _ (c_my cf) EU) as HU. cbn beta in HU. rewrite Hc, Ha in HU.
+    assert (Hin : In (c_my cf) (seq 0 (c_n cf))) by (apply in_seq; lia). specialize (HU Hin). discriminate HU.
+Qed.
+
+(* ---------------------------------------------------------------------- *)
+(* the OWN instance: the dealer side of the Qual handlers                   *)
+(* ---------------------------------------------------------------------- *)
+Section Own.
+Variable a : list Z.
+Hypothesis Ha : exists a0 al, a = a0 :: al.
+
+(* the number of participants that broadcast a valid complaint against [my] in time *)
+Definition dcount (A : alist) : nat := length (filter (compF cf my A) (seq 0 n)).
+(* the dealer disqualifies itself: forced, or more than t complaints at the second timeout *)
+Definition DPhi (A : alist) : bool :=
+  forced my A || (Nat.leb 2 (nph A) && Nat.ltb (c_t cf) (dcount A)).
+
+Record DInv (A : alist) (q : qinst) : Prop := mkDI {
+  di_v : q_v q = started_v a;
+  di_st : q_st q = Nat.leb 1 (nph A);
+  di_ct : q_ct q = Nat.leb 2 (nph A);
+  di_c : forall c, q_compl q c = if compF cf my A c then Some (mkC true true 0) else None;
+  di_phi : DPhi A = false }.
+
+Definition DRef (A : alist) (q : qinst) : Prop :=
+  (q_disq q = false -> DInv A q) /\ (q_disq q = true -> DPhi A = true).
+
+Lemma filter_length_le {X} (f g : X -> bool) l :
+  (forall x, f x = true -> g x = true) -> (length (filter f l) <= length (filter g l))%nat.
+Proof.
+  intro H. induction l as [|x l IH]; cbn; [lia|].
+  destruct (f x) eqn:Ef; [rewrite (H x Ef); cbn; lia|]. destruct (g x); cbn; lia.
+Qed.
+
+Lemma nph_mono A k x : (nph A <= nph (A ++ [(k, x)]))%nat.
+Proof. rewrite nph_app. destruct (is_timeout x); [unfold nph; lia|lia]. Qed.
+
+Lemma DPhi_mono A k x : DPhi A = true -> DPhi (A ++ [(k, x)]) = true.
+Proof.
+  unfold DPhi. intro H. apply orb_true_iff in H as [H|H].
+  - rewrite forced_app, H. reflexivity.
+  - apply andb_prop in H as [H1 H2]. apply orb_true_iff. right. apply andb_true_intro. split.
+    + apply Nat.leb_le in H1. apply Nat.leb_le. pose proof (nph_mono A k x). lia.
+    + apply Nat.ltb_lt in H2. apply Nat.ltb_lt. unfold dcount in *.
+      eapply Nat.lt_le_trans; [exact H2|]. apply filter_length_le.
+      intros c Hc. rewrite compF_app, Hc. reflexivity.
+Qed.
+
+Lemma DRef_ext A B q :
+  (forall c, compF cf my B c = compF cf my A c) -> nph B = nph A -> forced my B = forced my A ->
+  DRef A q -> DRef B q.
+Proof.
+  intros EC EN EF [R1 R2].
+  assert (EP : DPhi B = DPhi A).
+  { unfold DPhi, dcount. rewrite EF, EN. rewrite (filter_ext _ _ EC). reflexivity. }
+  split; intro Hq.
+  - destruct (R1 Hq) as [I1 I2 I3 I4 I5]. constructor; auto; try (rewrite EN; assumption).
+    + intro c. rewrite EC. apply I4.
+    + rewrite EP. exact I5.
+  - rewrite EP. auto.
+Qed.
+
+Lemma DRef_same' A q k x :
+  DRef A q -> is_timeout x = false ->
+  (forall c, comp_of cf my c k x = true -> compF cf my A c = true) ->
+  match x with IForce j => Nat.eqb j my | _ => false end = false ->
+  DRef (A ++ [(k, x)]) q.
+Proof.
+  intros [R1 R2] Ht Hc Hf.
+  assert (EC : forall c, compF cf my (A ++ [(k, x)]) c = compF cf my A c).
+  { intro c. rewrite compF_app. destruct (comp_of cf my c k x) eqn:E; [rewrite (Hc c E); reflexivity|apply orb_false_r]. }
+  assert (EN : nph (A ++ [(k, x)]) = nph A) by (rewrite nph_app, Ht; reflexivity).
+  assert (EP : DPhi (A ++ [(k, x)]) = DPhi A).
+  { unfold DPhi, dcount. rewrite forced_app, Hf, orb_false_r, EN. rewrite (filter_ext _ _ EC). reflexivity. }
+  split; intro Hq.
+  - destruct (R1 Hq) as [I1 I2 I3 I4 I5]. constructor; auto; try (rewrite EN; assumption).
+    + intro c. rewrite EC. apply I4.
+    + rewrite EP. exact I5.
+  - rewrite EP. auto.
+Qed.
+
+Lemma DRef_same A q k x :
+  DRef A q -> is_timeout x = false -> (forall c, comp_of cf my c k x = false) ->
+  match x with IForce j => Nat.eqb j my | _ => false end = false ->
+  DRef (A ++ [(k, x)]) q.
+Proof.
+  intros R Ht Hc Hf. apply DRef_same'; auto. intros c H. rewrite Hc in H. discriminate H.
+Qed.
+
+Lemma nph_timeout A k : nph (A ++ [(k, ITimeout)]) = Nat.min 2 (S (nph A)).
+Proof. rewrite nph_app. cbn [is_timeout]. unfold nph. lia. Qed.
+
+Lemma ncompl_count A m :
+  (forall c, m c = if compF cf my A c then Some (mkC true true 0) else None) ->
+  ncompl cf m = dcount A.
+Proof.
+  intro H. unfold ncompl, dcount. f_equal. apply filter_ext. intro c. rewrite H.
+  destruct (compF cf my A c); reflexivity.
+Qed.
+
+Lemma complaint_of_true c k o m : complaint_of cf my c k o m = true ->
+  exists b, m = MComplaint (CIdx b) /\ o = c /\ c <> my /\ (c < n)%nat /\ b < Z.of_nat n /\
+            Z.to_nat b = my /\ (k < 2)%nat.
+Proof.
+  unfold complaint_of. destruct m as [| | |[|b]| |]; try discriminate. intro H.
+  repeat (apply andb_prop in H as [H ?]).
+  exists b. split; [reflexivity|].
+  repeat match goal with
+  | H : negb _ = true |- _ => apply negb_true_iff in H
+  | H : Nat.eqb _ _ = true |- _ => apply Nat.eqb_eq in H
+  | H : Nat.eqb _ _ = false |- _ => apply Nat.eqb_neq in H
+  | H : Nat.ltb _ _ = true |- _ => apply Nat.ltb_lt in H
+  | H : Z.leb _ _ = false |- _ => apply Z.leb_gt in H
+  end. repeat split; auto.
+Qed.
+
+Lemma complaint_of_valid c k o b :
+  o <> my -> (o < n)%nat -> b < Z.of_nat n -> Z.to_nat b = my -> (k < 2)%nat ->
+  complaint_of cf my c k o (MComplaint (CIdx b)) = Nat.eqb o c.
+Proof.
+  intros H1 H2 H3 H4 H5. unfold complaint_of. destruct (Nat.eqb_spec o c) as [E|E]; [|reflexivity]. subst c.
+  unfold my, n in *.
+  apply Nat.eqb_neq in H1. rewrite H1. apply Nat.ltb_lt in H2. rewrite H2.
+  apply Z.leb_gt in H3. rewrite H3. apply Nat.eqb_eq in H4. rewrite H4. apply Nat.ltb_lt in H5. rewrite H5. reflexivity.
+Qed.
+
+Ltac cof_false :=
+  let E := fresh "E" in
+  match goal with |- complaint_of ?cf ?d ?c ?k ?o ?m = false =>
+    destruct (complaint_of cf d c k o m) eqn:E; [exfalso; apply complaint_of_true in E;
+      destruct E as (b' & Em & Eoc & Ecm & Ecn & Ebn & Ebm & Ek)|reflexivity] end.
+
+Lemma own_step A q x : DRef A q -> DRef (A ++ [(nph A, x)]) (fst (istep cf my q x)).
+Proof.
+  intros R. destruct (q_disq q) eqn:Hq.
+  { split; intro H'; [rewrite (istep_disq cf my q x Hq) in H'; discriminate H'|].
+    apply DPhi_mono. apply R. exact Hq. }
+  pose proof R as [R1 _]. destruct (R1 Hq) as [I1 I2 I3 I4 I5].
+  destruct x as [o m|o m| |j]; unfold istep; cbn [call_of qual_step qs_run qs_q].
+  - unfold q_broadcast. cbn [negb]. destruct (in_range cf (Z.of_nat o)) eqn:Eo; cbn [negb].
+    2:{ cbn [qpack fst qs_q]. apply DRef_same; auto. intro c. cbn [comp_of]. cof_false.
+        unfold in_range in Eo. unfold n in *. lia. }
+    assert (Hon : (o < n)%nat) by (unfold in_range in Eo; unfold n in *; lia).
+    rewrite Nat2Z.id. fold my. destruct (Nat.eqb_spec my o) as [Emo|Emo].
+    { cbn [qpack fst qs_q]. apply DRef_same; auto. intro c. cbn [comp_of]. cof_false. congruence. }
+    rewrite Hq. assert (Eom : Nat.eqb o my = false) by (apply Nat.eqb_neq; auto).
+    destruct m as [| | vb | cb | ab |]; rewrite ?Eom; cbn [qpack fst qs_q qlift].
+    1,2,6: (apply DRef_same; auto; intro c; reflexivity).
+    { unfold q_receive_vector. rewrite Eom. cbn [negb qpack fst qs_q qlift].
+      apply DRef_same; auto; intro c; reflexivity. }
+    2:{ unfold q_receive_answer. rewrite Eom. cbn [negb qpack fst qs_q qlift].
+      apply DRef_same; auto; intro c; reflexivity. }
+    unfold q_receive_complaint. rewrite I3. fold my. rewrite Eom.
+    destruct (Nat.leb_spec 2 (nph A)) as [H2|H2].
+    { cbn [qpack fst qs_q qlift]. apply DRef_same; auto. intro c. cbn [comp_of]. cof_false. lia. }
+    destruct cb as [|b].
+    { cbn [qpack fst qs_q qlift]. apply DRef_same; auto. }
+    fold n. destruct (Z.leb_spec (Z.of_nat n) b) as [Hb|Hb].
+    { cbn [qpack fst qs_q qlift]. apply DRef_same; auto. intro c. cbn [comp_of]. cof_false.
+      inversion Em; subst b'. unfold n in *. lia. }
+    destruct (Nat.eqb_spec (Z.to_nat b) my) as [Hbm|Hbm]; cbn [negb].
+    2:{ cbn [qpack fst qs_q qlift]. apply DRef_same; auto. intro c. cbn [comp_of]. cof_false.
+      inversion Em; subst b'. contradiction. }
+    assert (Hk : (nph A < 2)%nat) by lia.
+    rewrite (I4 o). destruct (compF cf my A o) eqn:Eco; cbn [c_recv qpack fst qs_q qlift].
+    { apply DRef_same'; auto. intros c Hc. cbn [comp_of] in Hc.
+      rewrite (complaint_of_valid c (nph A) o b) in Hc; auto. apply Nat.eqb_eq in Hc. subst c. exact Eco. }
+    rewrite Nat.eqb_refl. unfold build_answer. cbn [qset_compl q_v q_compl]. rewrite I1. cbn [started_v v_a].
+    destruct Ha as (a0 & al & Ea). rewrite Ea at 1. unfold upd at 1. rewrite Nat.eqb_refl.
+    cbn [c_recv c_val qpack fst qs_q qlift].
+    assert (EN : nph (A ++ [(nph A, IB o (MComplaint (CIdx b)))]) = nph A) by (rewrite nph_app; reflexivity).
+    apply orb_false_elim in I5 as [I5 _].
+    split; cbn [qset_compl q_disq q_v q_st q_ct q_compl]; intro Hq'; [|rewrite Hq in Hq'; discriminate Hq'].
+    constructor; cbn [qset_compl q_disq q_v q_st q_ct q_compl]; try (rewrite EN; assumption); auto.
+    + rewrite EN, I3. symmetry. apply Nat.leb_gt. lia.
+    + intro c. rewrite compF_app. cbn [comp_of]. rewrite (complaint_of_valid c (nph A) o b); auto.
+      unfold upd. rewrite (Nat.eqb_sym c o). destruct (Nat.eqb o c); [rewrite orb_true_r; reflexivity|].
+      rewrite orb_false_r. apply I4.
+    + unfold DPhi. rewrite forced_app, I5, EN. apply Nat.leb_gt in Hk. rewrite Hk. reflexivity.
+  - unfold q_private. cbn [negb]. destruct (in_range cf (Z.of_nat o)) eqn:Eo; cbn [negb].
+    2:{ cbn [qpack fst qs_q]. apply DRef_same; auto. }
+    rewrite Nat2Z.id. fold my. destruct (Nat.eqb_spec my o) as [Emo|Emo].
+    { cbn [qpack fst qs_q]. apply DRef_same; auto. }
+    rewrite Hq. assert (Eom : Nat.eqb o my = false) by (apply Nat.eqb_neq; auto).
+    unfold q_receive_share. rewrite Eom. cbn [negb qpack fst qs_q qlift]. apply DRef_same; auto.
+  - unfold q_next_timeout. cbn [negb]. rewrite I3, Hq, I2.
+    destruct (Nat.leb_spec 2 (nph A)) as [H2|H2].
+    { cbn [qpack fst qs_q]. apply (DRef_ext A); auto.
+      - intro c. rewrite compF_app. apply orb_false_r.
+      - rewrite nph_app. cbn [is_timeout]. unfold nph in *. lia.
+      - rewrite forced_app. apply orb_false_r. }
+    assert (EC : forall c, compF cf my (A ++ [(nph A, ITimeout)]) c = compF cf my A c)
+      by (intro c; rewrite compF_app; apply orb_false_r).
+    assert (EF : forced my (A ++ [(nph A, ITimeout)]) = forced my A)
+      by (rewrite forced_app; apply orb_false_r).
+    assert (ED : dcount (A ++ [(nph A, ITimeout)]) = dcount A)
+      by (unfold dcount; rewrite (filter_ext _ _ EC); reflexivity).
+    apply orb_false_elim in I5 as [I5 _].
+    destruct (Nat.leb_spec 1 (nph A)) as [H1|H1]; cbn [negb].
+    + assert (EN : nph (A ++ [(nph A, ITimeout)]) = 2%nat) by (rewrite nph_timeout; lia).
+      unfold set_complaints_timeout. cbn [qset_ct q_compl]. rewrite (ncompl_count A _ I4).
+      destruct (Nat.ltb (c_t cf) (dcount A)) eqn:Et; cbn [qpack fst qs_q].
+      * split; cbn [qset_ct qset_disq q_disq]; intro Hq'; [discriminate Hq'|].
+        unfold DPhi. rewrite EN, ED, Et. apply orb_true_r.
+      * split; cbn [qset_ct qset_disq q_disq]; intro Hq'; [|rewrite Hq in Hq'; discriminate Hq'].
+        constructor; cbn [qset_ct q_disq q_v q_st q_ct q_compl]; try rewrite EN; auto.
+        all: try (intro c; rewrite EC; apply I4).
+        unfold DPhi. rewrite EF, I5, EN, ED, Et. reflexivity.
+    + assert (EN : nph (A ++ [(nph A, ITimeout)]) = 1%nat) by (rewrite nph_timeout; lia).
+      unfold set_shares_timeout. cbn [qset_st q_v]. rewrite I1. cbn [started_v v_vArecv v_xrecv negb qlift qpack fst qs_q].
+      split; cbn [qset_st qset_disq q_disq]; intro Hq'; [|rewrite Hq in Hq'; discriminate Hq'].
+      constructor; cbn [qset_st q_disq q_v q_st q_ct q_compl]; try rewrite EN; auto.
+      all: try (intro c; rewrite EC; apply I4).
+      unfold DPhi. rewrite EF, I5, EN. reflexivity.
+  - unfold q_force. cbn [negb]. destruct (in_range cf (Z.of_nat j)) eqn:Ej; cbn [negb].
+    2:{ cbn [qpack fst qs_q]. apply DRef_same; auto. apply Nat.eqb_neq. intro E.
+        unfold in_range in Ej. unfold n, my in *. lia. }
+    rewrite Nat2Z.id. destruct (Nat.eqb j my) eqn:Ejm; cbn [qpack fst qs_q].
+    + split; cbn [qset_disq q_disq]; intro Hq'; [discriminate Hq'|].
+      unfold DPhi. rewrite forced_app, Ejm. rewrite orb_true_r. reflexivity.
+    + apply DRef_same; auto.
+Qed.
+
+Lemma DRef_init : DRef [] (q_own a).
+Proof.
+  split; cbn; intro H; [|discriminate H]. constructor; cbn; auto.
+Qed.
+
+Lemma own_refines : forall items, DRef (annot items) (irun cf my (q_own a) items).
+Proof.
+  intro L. rewrite <- (rev_involutive L). induction (rev L) as [|x K IH]; cbn [rev].
+  - exact DRef_init.
+  - rewrite annot_app. unfold irun. rewrite fold_left_app. cbn [fold_left]. apply own_step. exact IH.
+Qed.
+
+Lemma existsb_all_false {X} (f : X -> bool) l : (forall x, f x = false) -> existsb f l = false.
+Proof. intro H. induction l as [|x l IH]; cbn; [reflexivity|]. rewrite H, IH. reflexivity. Qed.
+
+(* the own instance at End: the dealer's data, or disqualified by the dealer-side rule *)
+Definition own_verdict (items : list item) : option (list Z) :=
+  if DPhi (annot items) then None else Some a.
+
+Theorem own_inst_rel items :
+  length a = S (c_t cf) ->
+  inst_rel cf (endq (irun cf my (q_own a) items)) (own_verdict items).
+Proof.
+  intros Hl. unfold own_verdict. destruct (own_refines items) as [R1 R2].
+  set (q := irun cf my (q_own a) items) in *. unfold endq.
+  destruct (q_disq q) eqn:Hq.
+  - rewrite (R2 eq_refl). cbn. exact Hq.
+  - destruct (R1 eq_refl) as [I1 I2 I3 I4 I5]. rewrite I5. cbn [negb andb].
+    assert (EU : unanswered cf (q_compl q) = false).
+    { unfold unanswered. apply existsb_all_false. intro c. rewrite I4.
+      destruct (compF cf my (annot items) c); reflexivity. }
+    rewrite EU. cbn [inst_rel]. unfold inst_good. rewrite I1. cbn [started_v v_vA v_y v_x]. repeat split; auto.
+Qed.
+
+(* what the own instance emits after Start: no private message, and only correct answers
+   (the share P(c+1) of a complainer c) as broadcasts; EvFlag / EvDisq are local *)
+Definition own_event_ok (e : event) : Prop :=
+  match e with
+  | EvBcast m => exists c, (c < n)%nat /\ c <> my /\ m = MAnswer (AVal (Z.of_nat c) (share_of a c))
+  | EvSend _ _ => False
+  | _ => True
+  end.
+
+Lemma own_step_events A q x : DRef A q -> Forall own_event_ok (snd (istep cf my q x)).
+Proof.
+  intros R. destruct x as [o m|o m| |j]; unfold istep; cbn [call_of qual_step qs_run qs_q].
+  - unfold q_broadcast. cbn [negb]. destruct (in_range cf (Z.of_nat o)) eqn:Eo; cbn [negb qpack snd]; [|constructor].
+    assert (Hon : (o < n)%nat) by (unfold in_range in Eo; unfold n in *; lia).
+    rewrite Nat2Z.id. fold my. destruct (Nat.eqb_spec my o) as [Emo|Emo]; cbn [qpack snd]; [constructor|].
+    destruct (q_disq q) eqn:Hq; cbn [qpack snd]; [constructor|].
+    pose proof R as [R1 _]. destruct (R1 Hq) as [I1 I2 I3 I4 I5].
+    assert (Eom : Nat.eqb o my = false) by (apply Nat.eqb_neq; auto).
+    destruct m as [| | vb | cb | ab |]; rewrite ?Eom; cbn [qpack snd qlift]; try (repeat constructor; fail).
+    + unfold q_receive_vector. rewrite Eom. cbn [negb qpack snd qlift]. constructor.
+    + unfold q_receive_complaint. fold my. rewrite Eom.
+      destruct (q_ct q); cbn [qpack snd qlift]; [repeat constructor|].
+      destruct cb as [|b]; cbn [qpack snd qlift]; [constructor|].
+      destruct (Z.of_nat (c_n cf) <=? b); cbn [qpack snd qlift]; [constructor|].
+      destruct (Nat.eqb (Z.to_nat b) my); cbn [negb qpack snd qlift]; [|constructor].
+      rewrite (I4 o). destruct (compF cf my A o); cbn [c_recv qpack snd qlift]; [repeat constructor|].
+      rewrite Nat.eqb_refl. unfold build_answer. cbn [qset_compl q_v q_compl]. rewrite I1. cbn [started_v v_a].
+      destruct Ha as (a0 & al & Ea). rewrite Ea at 1. unfold upd at 1. rewrite Nat.eqb_refl.
+      cbn [c_recv c_val qpack snd qlift]. constructor; [|constructor].
+      exists o. split; [exact Hon|]. split; [auto|reflexivity].
+    + unfold q_receive_answer. rewrite Eom. cbn [negb qpack snd qlift]. constructor.
+  - unfold q_private. cbn [negb]. destruct (in_range cf (Z.of_nat o)) eqn:Eo; cbn [negb qpack snd]; [|constructor].
+    rewrite Nat2Z.id. fold my. destruct (Nat.eqb_spec my o) as [Emo|Emo]; cbn [qpack snd]; [constructor|].
+    destruct (q_disq q) eqn:Hq; cbn [qpack snd]; [constructor|].
+    assert (Eom : Nat.eqb o my = false) by (apply Nat.eqb_neq; auto).
+    unfold q_receive_share. rewrite Eom. cbn [negb qpack snd qlift]. constructor.
+  - unfold q_next_timeout. cbn [negb]. destruct (q_ct q); cbn [qpack snd]; [constructor|].
+    destruct (q_disq q) eqn:Hq.
+    { destruct (negb (q_st q)); cbn [qpack snd]; constructor. }
+    pose proof R as [R1 _]. destruct (R1 Hq) as [I1 I2 I3 I4 I5].
+    destruct (q_st q); cbn [negb].
+    + unfold set_complaints_timeout. destruct (Nat.ltb _ _); cbn [qpack snd]; repeat constructor.
+    + unfold set_shares_timeout. cbn [qset_st q_v]. rewrite I1. cbn [started_v v_vArecv v_xrecv negb qlift qpack snd]. constructor.
+  - unfold q_force. cbn [negb]. destruct (in_range cf (Z.of_nat j)); cbn [negb qpack snd]; [|constructor].
+    destruct (Nat.eqb _ _); cbn [qpack snd]; constructor.
+Qed.
+
+Theorem own_events_ok : forall items,
+  Forall own_event_ok (irun_events cf my (q_own a) items).
+Proof.
+  assert (G : forall L q A, DRef A q -> Forall own_event_ok (irun_events cf my q L)).
+  { induction L as [|x L IH]; intros q A R; cbn [irun_events]; [constructor|].
+    apply Forall_app. split; [apply (own_step_events A); exact R|].
+    apply (IH _ (A ++ [(nph A, x)])). apply own_step. exact R. }
+  intro items. apply (G items _ []). exact DRef_init.
+Qed.
+
+End Own.
+
+(* ---------------------------------------------------------------------- *)
+(* the timeout flags of every instance count the NextTimeout calls          *)
+(* ---------------------------------------------------------------------- *)
+Lemma irun_flags_gen d q1 :
+  qinv cf d (mkQS true q1) -> q_st q1 = false -> q_ct q1 = false -> forall L,
+  qinv cf d (mkQS true (irun cf d q1 L)) /\
+  (b2n (q_st (irun cf d q1 L)) + b2n (q_ct (irun cf d q1 L)))%nat = ph L.
+Proof.
+  intros Hinv Hs Hc L. rewrite <- (rev_involutive L). induction (rev L) as [|x K IH]; cbn [rev].
+  - split; [exact Hinv|]. cbn [irun fold_left]. rewrite Hs, Hc. reflexivity.
+  - destruct IH as [IH1 IH2]. unfold irun. rewrite fold_left_app. cbn [fold_left]. fold (irun cf d q1 (rev K)).
+    set (q := irun cf d q1 (rev K)) in *.
+    pose proof (qual_step_sim cf d Hmy (mkQS true q) (call_of x) IH1) as HS.
+    rewrite istep_as_step. cbn [fst].
+    destruct (qual_step cf d (mkQS true q) (call_of x)) as [[s' res] ev]. cbn [fst snd].
+    unfold qabs in HS at 1. cbn [qs_run qs_q] in HS. rewrite IH2 in HS.
+    rewrite ph_app.
+    assert (Hcnt : ph (rev K) = Nat.min 2 (length (filter is_timeout (rev K)))) by reflexivity.
+    destruct x as [o m|o m| |j]; cbn [call_of aut_step a_run a_to has_timeouts negb is_timeout] in HS |- *.
+    + destruct (in_range cf (Z.of_nat o)); cbn in HS; destruct HS as (I & Ab & _); destruct s' as [r' q'];
+        unfold qabs in Ab; cbn in Ab; inversion Ab; subst; split; auto.
+    + destruct (in_range cf (Z.of_nat o)); cbn in HS; destruct HS as (I & Ab & _); destruct s' as [r' q'];
+        unfold qabs in Ab; cbn in Ab; inversion Ab; subst; split; auto.
+    + destruct (Nat.leb_spec 2 (ph (rev K))) as [H2|H2]; cbn in HS; destruct HS as (I & Ab & _); destruct s' as [r' q'];
+        unfold qabs in Ab; cbn in Ab; inversion Ab; subst; (split; [auto|]); cbn [qs_q]; rewrite Hcnt in *; lia.
+    + destruct (in_range cf (Z.of_nat j)); cbn in HS; destruct HS as (I & Ab & _); destruct s' as [r' q'];
+        unfold qabs in Ab; cbn in Ab; inversion Ab; subst; split; auto.
+Qed.
+
+Lemma q0_flags a0 i items :
+  seed_fails cf (SeedOk a0) = false -> (i < n)%nat -> ph items = 2%nat ->
+  let q := irun cf i (q0 (fixpoly (c_t cf) a0) i) items in q_st q = true /\ q_ct q = true.
+Proof.
+  intros H Hi Hph q.
+  destruct (started_inv a0 H) as (_ & J2 & _).
+  specialize (J2 i _ (started_nth _ i Hi)). destruct J2 as [W Ao].
+  assert (Hinv : qinv cf i (mkQS true (q0 (fixpoly (c_t cf) a0) i))).
+  { split; [exact W|]. intros E _. apply Ao; [reflexivity|exact E]. }
+  assert (F : q_st (q0 (fixpoly (c_t cf) a0) i) = false /\ q_ct (q0 (fixpoly (c_t cf) a0) i) = false)
+    by (unfold q0; destruct (Nat.eqb i my); split; reflexivity).
+  destruct F as [F1 F2].
+  destruct (irun_flags_gen i _ Hinv F1 F2 items) as [_ E]. fold q in E. rewrite Hph in E.
+  destruct (q_st q), (q_ct q); cbn in E; try discriminate E; auto.
+Qed.
+
+(* ---------------------------------------------------------------------- *)
+(* one participant: Start, any input calls with both timeouts, End           *)
+(* ---------------------------------------------------------------------- *)
+(* the per-dealer verdicts of participant [my]: its own instance follows the dealer-side
+   rule, the others the fact-set specification *)
+Definition verdicts (a0 : list Z) (L : list call) : list (option (list Z)) :=
+  map (fun d => if Nat.eqb d my then own_verdict (fixpoly (c_t cf) a0) (items_of L)
+                else verdict_of d (items_of L)) (seq 0 n).
+
+Lemma Forall2_map_seq {X Y} (R : X -> Y -> Prop) (f : nat -> X) (g : nat -> Y) k m :
+  (forall d, (k <= d < k + m)%nat -> R (f d) (g d)) -> Forall2 R (map f (seq k m)) (map g (seq k m)).
+Proof.
+  revert k. induction m as [|m IH]; intros k H; cbn; constructor.
+  - apply H. lia.
+  - apply IH. intros d Hd. apply H. lia.
+Qed.
+
+Lemma nth_error_seq' m : forall s k, (k < m)%nat -> nth_error (seq s m) k = Some (s + k)%nat.
+Proof.
+  induction m as [|m IH]; intros s k H; [lia|]. destruct k; cbn; [f_equal; lia|].
+  rewrite IH by lia. f_equal. lia.
+Qed.
+
+Lemma insts_as_map a0 L :
+  seed_fails cf (SeedOk a0) = false -> forallb is_input L = true ->
+  j_insts (final (joint_step cf) (joint_init cf) (CStart (SeedOk a0) :: L))
+  = map (fun i => irun cf i (q0 (fixpoly (c_t cf) a0) i) (items_of L)) (seq 0 n).
+Proof.
+  intros H HL. destruct (joint_instances a0 L H HL) as (_ & _ & Ln & Hn & _).
+  apply list_eq_nth. intro k. destruct (Nat.lt_ge_cases k n) as [Hk|Hk].
+  - rewrite (Hn k Hk). rewrite (qrun_irun k L _ HL).
+    rewrite nth_error_map. rewrite (nth_error_seq' n 0 k Hk). reflexivity.
+  - rewrite (proj2 (nth_error_None _ _)) by lia.
+    symmetry. apply nth_error_None. rewrite map_length, seq_length. exact Hk.
+Qed.
+
+(* C07 joint link, one participant: the result of End after Start(seed) and the input calls L
+   is the failure / sum rule over per-dealer states that satisfy the per-dealer verdicts *)
+Theorem joint_run_end a0 L :
+  seed_fails cf (SeedOk a0) = false -> forallb is_input L = true -> ph (items_of L) = 2%nat ->
+  let s := final (joint_step cf) (joint_init cf) (CStart (SeedOk a0) :: L) in
+  snd (fst (joint_step cf s CEnd)) = joint_outcome cf (map endq (j_insts s)) /\
+  j_jrun (fst (fst (joint_step cf s CEnd))) = false /\
+  Forall2 (inst_rel cf) (map endq (j_insts s)) (verdicts a0 L).
+Proof.
+  intros H HL Hph s. cbn [joint_step].
+  destruct (joint_instances a0 L H HL) as (Jr & _).
+  pose proof (insts_as_map a0 L H HL) as EI. fold s in Jr, EI.
+  assert (Hs : same_to (j_insts s) true true).
+  { intros q Hq. rewrite EI in Hq. apply in_map_iff in Hq as (i & <- & Hi). apply in_seq in Hi.
+    apply (q0_flags a0 i (items_of L) H); [lia|exact Hph]. }
+  destruct (joint_end_link s Jr Hs) as [E1 E2]. split; [exact E1|]. split; [exact E2|].
+  rewrite EI, map_map. unfold verdicts. apply Forall2_map_seq. intros d Hd. cbn beta.
+  unfold q0. destruct (Nat.eqb_spec d my) as [->|Hne].
+  - apply own_inst_rel; [apply fixpoly_cons|apply fixpoly_length].
+  - apply nondealer_inst_rel; [lia| intro E; apply Hne; symmetry; exact E|exact Hph].
+Qed.
+
 End Link.
+
+(* ---------------------------------------------------------------------- *)
+(* two honest participants on a network                                     *)
+(* ---------------------------------------------------------------------- *)
+(* what participant k receives from and about an HONEST dealer d (polynomial a, own inputs
+   Id), in the style of [admissible]: d's broadcasts and private share as delivered to k are
+   those of the dealer model; ForceDisqualify(d) is called nowhere; the complainers k counts
+   (a complaint, or d's answer to it) are those whose complaint reached d in time; every
+   answer of d arrived before End *)
+Definition honest_dealer_view (n t d k : nat) (a : list Z) (Id Ik : list item) : Prop :=
+  honest_dealer_log (cfg_of n t k) d a (annot Ik) /\
+  forced d (annot Id) = false /\
+  (forall c, keyF (cfg_of n t k) d (annot Ik) c = compF (cfg_of n t d) d (annot Id) c) /\
+  unansweredF (cfg_of n t k) d (annot Ik) = false.
+
+Lemma honest_dealer_view_verdict n t d k a Id Ik :
+  (d < n)%nat -> (k < n)%nat -> k <> d -> ph Id = 2%nat -> ph Ik = 2%nat ->
+  honest_dealer_view n t d k a Id Ik ->
+  verdict_of (cfg_of n t k) d Ik = own_verdict (cfg_of n t d) a Id.
+Proof.
+  intros Hd Hk Hkd Hpd Hpk (HL & HF & HK & HU).
+  unfold verdict_of, own_verdict. rewrite (hd_vecOk _ _ _ _ HL).
+  assert (ET : tooMany (cfg_of n t k) d (annot Ik)
+               = (Nat.leb 2 (nph (annot Id)) && Nat.ltb t (dcount (cfg_of n t d) (annot Id)))).
+  { unfold tooMany, nkeys, dcount. rewrite !nph_annot, Hpd, Hpk. cbn [cfg_of c_t c_n c_my].
+    rewrite (filter_ext _ _ HK). reflexivity. }
+  assert (ED : DPhi (cfg_of n t d) (annot Id) = tooMany (cfg_of n t k) d (annot Ik)).
+  { unfold DPhi. cbn [cfg_of c_t c_n c_my]. rewrite HF, ET. reflexivity. }
+  rewrite ED. destruct (tooMany (cfg_of n t k) d (annot Ik)) eqn:E.
+  - unfold PhiEnd, Phi. rewrite E. rewrite ?orb_true_r. reflexivity.
+  - rewrite (honest_dealer_clean (cfg_of n t k) d Hk Hd Hkd a (annot Ik) HL E HU). reflexivity.
+Qed.
+
+Section TwoHonest.
+Variables n t i j : nat.
+Hypothesis Hi : (i < n)%nat.
+Hypothesis Hj : (j < n)%nat.
+Hypothesis Hij : i <> j.
+(* the seeds and the calls made between Start and End *)
+Variables si sj : list Z.
+Variables Li Lj : list call.
+Let cfi := cfg_of n t i.
+Let cfj := cfg_of n t j.
+Hypothesis Hsi : seed_fails cfi (SeedOk si) = false.
+Hypothesis Hsj : seed_fails cfj (SeedOk sj) = false.
+Hypothesis HLi : forallb is_input Li = true.
+Hypothesis HLj : forallb is_input Lj = true.
+Let Ii := items_of cfi Li.
+Let Ij := items_of cfj Lj.
+(* both timeouts elapsed at both participants *)
+Hypothesis Hpi : ph Ii = 2%nat.
+Hypothesis Hpj : ph Ij = 2%nat.
+Let inputs (k : nat) : list item := if Nat.eqb k i then Ii else Ij.
+(* the network, for the instances of the other dealers (honest or not) ... *)
+Hypothesis Hthird : forall d, (d < n)%nat -> d <> i -> d <> j -> admissible n t d [i; j] inputs.
+(* ... and for the instances of the two honest participants themselves *)
+Hypothesis Hvi : honest_dealer_view n t i j (fixpoly t si) Ii Ij.
+Hypothesis Hvj : honest_dealer_view n t j i (fixpoly t sj) Ij Ii.
+
+Lemma inputs_i : inputs i = Ii.
+Proof. unfold inputs. rewrite Nat.eqb_refl. reflexivity. Qed.
+Lemma inputs_j : inputs j = Ij.
+Proof. unfold inputs. destruct (Nat.eqb_spec j i) as [E|_]; [exfalso; apply Hij; symmetry; exact E|reflexivity]. Qed.
+
+(* the two participants reach the same verdict and the same vector for every dealer *)
+Lemma verdicts_agree : verdicts cfj sj Lj = verdicts cfi si Li.
+Proof.
+  unfold verdicts. cbn [cfi cfj cfg_of c_n c_t c_my]. apply map_ext_in. intros d Hd. apply in_seq in Hd.
+  fold cfi cfj Ii Ij.
+  destruct (Nat.eqb_spec d i) as [->|Hdi].
+  - destruct (Nat.eqb_spec i j) as [E|_]; [contradiction|].
+    apply (honest_dealer_view_verdict n t i j _ Ii Ij Hi Hj); auto.
+  - destruct (Nat.eqb_spec d j) as [->|Hdj].
+    + symmetry. apply (honest_dealer_view_verdict n t j i _ Ij Ii Hj Hi); auto.
+    + assert (Hd' : (d < n)%nat) by lia.
+      pose proof (Hthird d Hd' Hdi Hdj) as Hadm.
+      assert (Ini : In i [i; j]) by (left; reflexivity).
+      assert (Inj : In j [i; j]) by (right; left; reflexivity).
+      pose proof (agreement_disqualified n t d [i; j] inputs Hadm j i Inj Ini) as EP.
+      cbn beta in EP. rewrite inputs_i, inputs_j in EP.
+      destruct Hadm as (_ & H1 & _). specialize (H1 j i Inj Ini). rewrite inputs_i, inputs_j in H1.
+      change (PhiEnd cfj d (annot Ij) = PhiEnd cfi d (annot Ii)) in EP.
+      unfold verdict_of. rewrite EP. unfold vecOk. rewrite !vecF_bview, H1. reflexivity.
+Qed.
+
+(* C07 agreement on Joint-Feldman network executions: the results of End at two honest
+   participants after Start(seed) and any input calls, under the network hypotheses above:
+   both fail, or both return the same group key and the same public shares, each with its own
+   share of the summed polynomial S of the dealers both kept.  As in the code, a participant
+   whose own summed share is zero returns a failure alone; that case is excluded by the two
+   explicit hypotheses on S. *)
+Theorem joint_agreement_on_runs :
+  let end_i := final (joint_step cfi) (joint_init cfi) (CStart (SeedOk si) :: Li) in
+  let end_j := final (joint_step cfj) (joint_init cfj) (CStart (SeedOk sj) :: Lj) in
+  let res_i := snd (fst (joint_step cfi end_i CEnd)) in
+  let res_j := snd (fst (joint_step cfj end_j CEnd)) in
+  let S := psum t (somes (verdicts cfi si Li)) in
+  peval S (Z.of_nat i + 1) <> 0 -> peval S (Z.of_nat j + 1) <> 0 ->
+  (res_i = RFailure /\ res_j = RFailure) \/
+  (exists x x' ys,
+     res_i = RKeys x (peval S 0) ys /\ res_j = RKeys x' (peval S 0) ys /\
+     ys = pubkeys cfi S /\ nth_error ys i = Some x /\ nth_error ys j = Some x' /\
+     length S = Datatypes.S t).
+Proof.
+  intros end_i end_j res_i res_j S HxI HxJ.
+  destruct (joint_run_end cfi Hi si Li Hsi HLi Hpi) as (Ei & _ & Fi).
+  destruct (joint_run_end cfj Hj sj Lj Hsj HLj Hpj) as (Ej & _ & Fj).
+  fold end_i in Ei, Fi. fold end_j in Ej, Fj. fold res_i in Ei. fold res_j in Ej.
+  rewrite verdicts_agree in Fj. rewrite Ei, Ej.
+  apply (agreement_outcome_joint cfi cfj _ _ (verdicts cfi si Li)); auto.
+  unfold verdicts. rewrite map_length, seq_length. reflexivity.
+Qed.
+
+End TwoHonest.
